@@ -134,6 +134,19 @@ class Stacker(Transformer):
                 f"One or more dimensions in {expected_dims} are not present in data."
             )
 
+    def _align_feature_coords(self, X: Data) -> Data:
+        """Reorder feature coordinates that hold the fitted labels in a different order."""
+        for dim in self.dims_mapping[self.feature_name]:
+            fitted = self.coords_in[dim]
+            given = X.coords[dim]
+            if isinstance(X.indexes[dim], pd.MultiIndex) or given.equals(fitted):
+                continue
+            if given.size == fitted.size and set(given.values.tolist()) == set(
+                fitted.values.tolist()
+            ):
+                X = X.sel({dim: fitted.values})
+        return X
+
     def _validate_transform_feature_coords(self, X: Data):
         """Verify that the feature coordinates of the data are consistent with the feature coordinates used to fit the stacker."""
         feature_dims = self.dims_mapping[self.feature_name]
@@ -352,6 +365,10 @@ class Stacker(Transformer):
         """
         # Test whether sample and feature dimensions are present in data array
         self._validate_transform_dimensions(X)
+
+        # Data carrying the fitted feature labels in another order (e.g. a reconstruction,
+        # which comes back sorted) is brought into the order used during fit
+        X = self._align_feature_coords(X)
 
         # Check if data to be transformed has the same feature coordinates as the data used to fit the stacker
         self._validate_transform_feature_coords(X)
